@@ -251,12 +251,17 @@ class ResourcePeriodicallyUnavailable(ResourceConstraint):
                 for start_task_i, end_task_i in worker.get_busy_intervals():
                     resource_assigned = True
                     duration = end_task_i - start_task_i
+                    folded_start_task_i = (start_task_i - self.offset) % self.period
                     conds = [
-                        z3.Xor(
-                            (start_task_i - self.offset) % self.period
-                            >= interval_upper_bound,
-                            (start_task_i - self.offset) % self.period + duration
-                            <= interval_lower_bound,
+                        z3.Or(
+                            # the folded task is completed before the time interval
+                            folded_start_task_i + duration <= interval_lower_bound,
+                            # or lies between the time interval and its next occurrence
+                            z3.And(
+                                folded_start_task_i >= interval_upper_bound,
+                                folded_start_task_i + duration
+                                <= interval_lower_bound + self.period,
+                            ),
                         )
                     ]
 
